@@ -12,8 +12,9 @@ NOTOTAL = [-1, 1]
 YEARS = [2020.0, 2022.0]
 
 
-def cfg(n, small):
-    s = "SPECIFICATION Spec\nCONSTANTS\n  NProg = %d\n  Grid <- MCGrid\n  Initials <- MCInitials%d\n  Totals <- MCTotals\n  Factors <- MCFactors\n  BoundPairs <- %s\n" % (n, n, "MCBoundPairsSmall" if small else "MCBoundPairs")
+def cfg(n, small, sample=0):
+    s = "SPECIFICATION Spec\nCONSTANTS\n  NProg = %d\n  Grid <- MCGrid\n  Initials <- MCInitials%s\n  Totals <- MCTotals\n  Factors <- MCFactors\n  BoundPairs <- %s\n  Sample = %d\n" % (
+        n, str(n) if n <= 3 else "Any", "MCBoundPairsSmall" if small else "MCBoundPairs", sample)
     return s + "INVARIANT UnresolvableSound\nINVARIANT WitnessOK\nCHECK_DEADLOCK FALSE\n"
 
 
@@ -65,21 +66,116 @@ def observe(at, c0):
     return "ok", z, ""
 
 
+def cfg_pkg(n):
+    s = "SPECIFICATION Spec\nCONSTANTS\n  NMem = %d\n  Inits <- MCInits%d\n  PropPairs <- MCPropPairs\n  FracGrid <- MCFracGrid\n  TotalRanges <- MCTotalRanges\n  Plains <- MCPlains\n  ConFactors <- MCCons\n  WGrid <- MCWGrid\n" % (n, n)
+    return s + "INVARIANT ShareFeasible\nINVARIANT UnresSound\nINVARIANT LevelFeasible\nCHECK_DEADLOCK FALSE\n"
+
+
+def observe_pkg(at, c0):
+    """One package case through SpendingPackageAdjustment + SpendingAdjustment (+ TotalSpendConstraint)."""
+    import sciris as sc
+    from atomica.optimization import SpendingAdjustment, SpendingPackageAdjustment, TotalSpendConstraint, Optimization, MaximizeMeasurable, UnresolvableConstraint, FailedConstraint
+    from atomica.utils import TimeSeries
+
+    c = c0["case"]
+    n = c0["n"]
+    t = 2020.0
+    names = ["M%d" % (i + 1) for i in range(n)]
+    init = [f(v) for v in c["init"]]
+    out = dict(outcome="ok", stage1=False, stage2=False, z1=[0.0] * n, q1=0.0, z2=[0.0] * n, q2=0.0, err="")
+    try:
+        pkg = SpendingPackageAdjustment("pkg", t, names, init, min_props=[f(b[0]) for b in c["pb"]], max_props=[f(b[1]) for b in c["pb"]],
+                                        min_total_spend=f(c0["mint"]), max_total_spend=f(c0["maxt"]))
+        q = SpendingAdjustment("Q", t=t, limit_type="abs", lower=f(c["plain"]["lo"]), upper=f(c["plain"]["hi"]), initial=f(c["plain"]["x0"]))
+        con = TotalSpendConstraint(budget_factor=f(c["con"])) if c0["hascon"] else None
+        opt = Optimization(adjustments=[pkg, q], measurables=MaximizeMeasurable("x", [t]), constraints=con)
+    except Exception as ex:
+        out.update(outcome="error", err="constructor: %s: %s" % (type(ex).__name__, str(ex)[:200]))
+        return out
+    if bool(pkg.adjust_total_spend) != bool(c0["at"]):
+        out.update(outcome="error", err="adjust_total_spend is %s, expected %s" % (pkg.adjust_total_spend, c0["at"]))
+        return out
+    alloc = {names[i]: TimeSeries([t], [init[i]]) for i in range(n)}
+    alloc["Q"] = TimeSeries([t], [f(c["plain"]["x0"])])
+    ins0 = at.ProgramInstructions(start_year=2019.0, alloc=alloc)
+    it = sum(init)
+    iprops = [v / it for v in init] if it else [1.0 / n] * n
+    x0 = iprops + ([it] if c0["at"] else []) + [f(c["plain"]["x0"])]
+    try:
+        hard = opt.get_hard_constraints(x0, ins0)
+    except UnresolvableConstraint:
+        out["outcome"] = "unresolvable"
+        return out
+    except Exception as ex:
+        out.update(outcome="error", err="get_hard_constraints: %s: %s" % (type(ex).__name__, str(ex)[:200]))
+        return out
+    prop = [f(v) for v in c["fr"]] + ([f(c0["p1"])] if c0["at"] else []) + [f(c["plain"]["x"])]
+    ins = sc.dcp(ins0)
+    try:
+        with np.errstate(all="ignore"):
+            opt.update_instructions(prop, ins)
+        out.update(stage1=True, z1=[float(ins.alloc[m].get(t)) for m in names], q1=float(ins.alloc["Q"].get(t)))
+        with np.errstate(all="ignore"):
+            opt.constrain_instructions(ins, hard)
+        out.update(stage2=True, z2=[float(ins.alloc[m].get(t)) for m in names], q2=float(ins.alloc["Q"].get(t)))
+    except FailedConstraint:
+        out["outcome"] = "failed"
+    except Exception as ex:
+        out.update(outcome="error", err="%s: %s: %s" % ("constrain_instructions" if out["stage1"] else "update_instructions", type(ex).__name__, str(ex)[:200]))
+    if not all(np.isfinite(v) for v in out["z1"] + out["z2"] + [out["q1"], out["q2"]]):
+        out.update(outcome="error", stage1=False, stage2=False, err="non-finite allocation %s %s" % (out["z1"], out["z2"]), z1=[0.0] * n, z2=[0.0] * n, q1=0.0, q2=0.0)
+    return out
+
+
+def packages(at, V, cov, thorough):
+    records, index = [], {}
+    rid = 0
+    outcomes = {}
+    for n in ([2, 3] if thorough else [2]):
+        r, cases = C.enumerate_cases(["Rat", "Package", "MCPackage"], "MCPackage", cfg_pkg(n), timeout=3000)
+        cov["states"] += r.distinct
+        cov["transitions"] += r.generated
+        cov["plan"].append(dict(packages=True, members=n, cases=len(cases)))
+        for c0 in cases:
+            o = observe_pkg(at, c0)
+            outcomes[o["outcome"]] = outcomes.get(o["outcome"], 0) + 1
+            c = c0["case"]
+            records.append(dict(id=rid, outcome=o["outcome"], stage1=o["stage1"], stage2=o["stage2"], pb=c["pb"], at=c0["at"], mint=c0["mint"], maxt=c0["maxt"], p1=c0["p1"],
+                                hascon=c0["hascon"], total=c0["total"], unres=c0["unres"], satisfied=c0["satisfied"], lo=c["plain"]["lo"], hi=c["plain"]["hi"],
+                                z1=FX.fixseq(o["z1"]), q1=FX.fix(o["q1"]), z2=FX.fixseq(o["z2"]), q2=FX.fix(o["q2"])))
+            index[rid] = dict(case=c, derived={k: c0[k] for k in ("at", "mint", "maxt", "p1", "hascon", "total", "unres", "satisfied")}, observed=o)
+            rid += 1
+        cov["samples"].append(cases[len(cases) // 2])
+    bad, states = C.validate_batch(["Rat", "Big", "PackageTrace"], "PackageTrace", records, timeout=3000)
+    cov["states"] += states
+    cov["transitions"] += states
+    cov["traces_validated_against_impl"] += len(records)
+    cov["package_outcomes"] = outcomes
+    for rid_, clause in bad:
+        d = index[rid_]
+        what = d["observed"]["err"].split(":")[1].strip() if d["observed"]["err"] else ""
+        V.violation("C14 package %s %s%s" % (clause, what, " zero package total proposed" if fr(d["derived"]["p1"]) == 0 else ""), dict(clause=clause, **d))
+
+
 def run(prop, tier):
     t0 = time.time()
     at = C.quiet_atomica()
     V = C.Verdict(prop)
     thorough = tier == "thorough"
-    plan = [(2, not thorough)] + ([(3, True)] if thorough else [])
+    # (programs, small bound set, sample): 1-3 programs exhaustively over the grids, 6 and 10 programs on random cases drawn by TLC
+    plan = [(1, False, 0), (2, not thorough, 0)] + ([(3, True, 0)] if thorough else []) + [(6, False, 6 if thorough else 4), (10, False, 5 if thorough else 3)]
     cov = dict(states=0, transitions=0, traces_validated_against_impl=0, samples=[], exhaustive=True, plan=[])
     records, index = [], {}
     rid = 0
     outcomes = {}
-    for n, small in plan:
-        r, cases = C.enumerate_cases(["Rat", "Alloc", "MCAlloc"], "MCAlloc", cfg(n, small), timeout=3000)
+    for n, small, sample in plan:
+        r, cases = C.enumerate_cases(["Rat", "Alloc", "MCAlloc"], "MCAlloc", cfg(n, small, sample), timeout=3000)
         cov["states"] += r.distinct
         cov["transitions"] += r.generated
-        cov["plan"].append(dict(n=n, small=small, cases=len(cases)))
+        cov["plan"].append(dict(n=n, small=small, sampled_per_choice=sample, cases=len(cases)))
+        if sample:
+            cov["exhaustive"] = False
+            cov["exhaustive_note"] = "1-3 programs and the spending packages exhaustive over the grids; 6 and 10 programs sampled by TLC (RandomSubset)"
         for c0 in cases:
             outcome, z, err = observe(at, c0)
             outcomes[outcome] = outcomes.get(outcome, 0) + 1
@@ -96,6 +192,7 @@ def run(prop, tier):
     cov["transitions"] += states
     cov["traces_validated_against_impl"] = len(records)
     cov["outcomes"] = outcomes
+    packages(at, V, cov, thorough)
     for rid_, clause in bad:
         d = index[rid_]
         zero_total = any(fr(y["total"]) == 0 for y in d["derived"])
